@@ -318,6 +318,7 @@ class Shape:
         self.hooks = kw.get('hooks', 1)          # max hooks per list
         self.payload = kw.get('payload', 'mixed')  # none | all | mixed
         self.super_data = kw.get('super_data', False)
+        self.cross_kind = kw.get('cross_kind', False)   # a guard also used as an unless-condition (K1 only: one hook, two roles)
 
 
 def gen_forest(rnd, shape, names, snames):
@@ -334,6 +335,8 @@ def gen_forest(rnd, shape, names, snames):
                 r = rnd.random()
                 if r < 0.5 and lv:
                     body.insert(rnd.randint(0, len(body)), ('initial', rnd.choice(lv)))
+                    if rnd.random() < 0.3:      # a second `initial:` in the same block: the last one wins
+                        body.insert(rnd.randint(0, len(body)), ('initial', rnd.choice(lv)))
                 items.append(('super', sn, None, body))
                 made_super = True
             elif names:
@@ -398,6 +401,8 @@ def gen_wellformed(rnd, shape, idx=0):
         if has_pl:
             es.append(('payload', 'P'))
 
+        ev_level = {}
+
         def mk_hooks(level):
             out = []
             for k in HOOK_KEYS:
@@ -408,10 +413,16 @@ def gen_wellformed(rnd, shape, idx=0):
                 for _ in range(n):
                     if hs and rnd.random() < 0.15:
                         hs.append(rnd.choice(hs))
+                    elif level == 't' and ev_level.get(k) and rnd.random() < 0.2:
+                        hs.append(rnd.choice(ev_level[k]))       # the same hook at event and at transition level
+                    elif shape.cross_kind and level == 't' and k == 'unless' and ev_level.get('guards') and rnd.random() < 0.3:
+                        hs.append(rnd.choice(ev_level['guards']))  # a guard also listed as an unless-condition
                     else:
                         hook_ctr[0] += 1
                         hs.append('%s%d_%s%d' % ({'guards': 'g', 'unless': 'u', 'before': 'b', 'after': 'a', 'around': 'w'}[k], ei, level, hook_ctr[0]))
                 out.append(('list', k, hs))
+                if level == 'e':
+                    ev_level[k] = list(hs)
             return out
         ehooks = mk_hooks('e')
         covered = set()
